@@ -45,3 +45,9 @@ VARIANTS = [
       expect="silent"),
     V("twin-facmax", AD, "facmin=0.2, facmax=1.4", "facmin=0.1, facmax=2.0", expect="silent"),
 ]
+
+VARIANTS += [
+    # the defect repaired by 0650c92: the controller scaled the nominal step size instead of the (clipped) trial
+    V("controller-scales-nominal-step", BS, "prev_step_size=next_t - curr_t,", "prev_step_size=step_size,", rule="R14.3"),
+    V("twin-controller-trial-length-temporary", BS, "                    with torch.no_grad():\n                        error_estimate", "                    tried = next_t - curr_t\n                    with torch.no_grad():\n                        error_estimate", expect="silent"),
+]
